@@ -29,6 +29,9 @@ pub enum SK {
     Q2Hold,
     Sub,
     Unsub,
+    /// subscribe / unsubscribe with a caller-chosen packet id
+    SubId(u16),
+    UnsubId(u16),
     /// `sink.ready().await`
     Ready,
     /// QoS 1 with a payload larger than the peer's maximum packet size: must fail locally
@@ -317,6 +320,20 @@ async fn run_sender_v5(sink: ntex_mqtt::v5::MqttSink, kind: SK, j: usize, app: A
                 Err(e) => push(format!("err:{e:?}")),
             }
         }
+        SK::SubId(id) => {
+            let r = sink.subscribe(None).packet_id(id).topic_filter(bs(&format!("f{j}")), c::SubscriptionOptions::default()).send().await;
+            push(match r {
+                Ok(a) => format!("ok:{}:{:?}", a.packet_id, a.status.iter().map(|s| u8::from(*s)).collect::<Vec<_>>()),
+                Err(e) => format!("err:{e:?}"),
+            });
+        }
+        SK::UnsubId(id) => {
+            let r = sink.unsubscribe().packet_id(id).topic_filter(bs(&format!("f{j}"))).send().await;
+            push(match r {
+                Ok(a) => format!("ok:{}:{:?}", a.packet_id, a.status.iter().map(|s| u8::from(*s)).collect::<Vec<_>>()),
+                Err(e) => format!("err:{e:?}"),
+            });
+        }
         SK::Sub => {
             let r = sink.subscribe(None).topic_filter(bs(&format!("f{j}")), c::SubscriptionOptions::default()).send().await;
             push(match r {
@@ -518,6 +535,20 @@ async fn run_sender_v3(sink: ntex_mqtt::v3::MqttSink, kind: SK, j: usize, app: A
                 }
                 Err(e) => push(format!("err:{e:?}")),
             }
+        }
+        SK::SubId(id) => {
+            let r = sink.subscribe().packet_id(id).topic_filter(bs(&format!("f{j}")), ntex_mqtt::QoS::AtMostOnce).send().await;
+            push(match r {
+                Ok(a) => format!("ok:{a:?}"),
+                Err(e) => format!("err:{e:?}"),
+            });
+        }
+        SK::UnsubId(id) => {
+            let r = sink.unsubscribe().packet_id(id).topic_filter(bs(&format!("f{j}"))).send().await;
+            push(match r {
+                Ok(()) => "ok".into(),
+                Err(e) => format!("err:{e:?}"),
+            });
         }
         SK::Sub => {
             let r = sink.subscribe().topic_filter(bs(&format!("f{j}")), ntex_mqtt::QoS::AtMostOnce).send().await;
@@ -969,9 +1000,9 @@ impl Out {
                 .iter()
                 .filter(|(_, p)| match (kind, p) {
                     (SK::Stream { .. }, Pkt::Publish { topic, .. }) => *topic == format!("s{j}"),
-                    (SK::Sub | SK::SubBig, Pkt::Subscribe { filters, .. }) => filters.first().is_some_and(|f| f.0 == format!("f{j}") || f.0.len() > 1000),
-                    (SK::Unsub, Pkt::Unsubscribe { filters, .. }) => filters.first().is_some_and(|f| *f == format!("f{j}")),
-                    (SK::Stream { .. } | SK::Sub | SK::SubBig | SK::Unsub, _) => false,
+                    (SK::Sub | SK::SubBig | SK::SubId(_), Pkt::Subscribe { filters, .. }) => filters.first().is_some_and(|f| f.0 == format!("f{j}") || f.0.len() > 1000),
+                    (SK::Unsub | SK::UnsubId(_), Pkt::Unsubscribe { filters, .. }) => filters.first().is_some_and(|f| *f == format!("f{j}")),
+                    (SK::Stream { .. } | SK::Sub | SK::SubBig | SK::Unsub | SK::SubId(_) | SK::UnsubId(_), _) => false,
                     (_, Pkt::Publish { payload, topic, .. }) => (payload.first() == Some(&(b'0' + j as u8)) && topic == "t") || topic.len() > 1000,
                     _ => false,
                 })
@@ -1317,7 +1348,7 @@ impl Scenario for Out {
                 a[j].started = true;
                 a[j].handle = Some(h);
                 let chosen = |k: SK| match k {
-                    SK::Q1Id(id) => Some(id),
+                    SK::Q1Id(id) | SK::SubId(id) | SK::UnsubId(id) => Some(id),
                     SK::Stream { plan: 8, .. } => Some(5),
                     _ => None,
                 };
@@ -1516,7 +1547,7 @@ impl Scenario for Out {
                 let expected_local_failure = during_stream
                     || bad_stream
                     || matches!(self.cfg.senders[j], SK::Q1Big | SK::Q1BigId(_) | SK::SubBig | SK::HugeThenTooLong)
-                    || (matches!(self.cfg.senders[j], SK::Q1Id(_)) && self.id_overlap[j] && s.results.iter().all(|r| !r.starts_with("err") || r.contains("PacketIdInUse")));
+                    || (matches!(self.cfg.senders[j], SK::Q1Id(_) | SK::SubId(_) | SK::UnsubId(_)) && self.id_overlap[j] && s.results.iter().all(|r| !r.starts_with("err") || r.contains("PacketIdInUse")));
                 if s.started && !s.cancelled && !expected_local_failure && s.results.iter().any(|r| r.starts_with("err")) {
                     return Err(Violation::new(
                         "send-failed",
